@@ -62,10 +62,10 @@ Begin(e) == /\ ~running /\ e.mode \in {"sync", "async"}
 Read(e) ==
   /\ running /\ ~waiting
   /\ e.pos = pos
-  /\ e.want >= 1
+  /\ e.want >= 0                                         \* (a read with an empty buffer is a no-op)
   /\ (Prop = "C06" => pos + e.want <= m.limit)           \* no read-ahead, nothing read after the end
   /\ CASE e.r = "got" ->
-            /\ e.n >= 1 /\ e.n <= e.want /\ pos + e.n <= m.avail
+            /\ (IF e.want = 0 THEN e.n = 0 ELSE e.n >= 1) /\ e.n <= e.want /\ pos + e.n <= m.avail
             /\ pos' = pos + e.n
             /\ UNCHANGED <<faulted, eof, waiting>>
        [] e.r = "eof" ->
